@@ -94,6 +94,7 @@ func (service *importCache) getOrAdd(key string, add func() (rel.Expr, error)) (
 			// someone else can have a go.
 			service.mutex.Lock()
 			delete(service.cache, key)
+			verifTrace("abandon", key)
 			// Wake the goroutines waiting for this key: one of them takes over.
 			service.cond.Broadcast()
 		}
@@ -103,9 +104,11 @@ func (service *importCache) getOrAdd(key string, add func() (rel.Expr, error)) (
 	for {
 		if val, has := service.cache[key]; has {
 			if val != nil {
+				verifTrace("hit", key)
 				return val, nil
 			}
 			// Another goroutine is adding an entry.
+			verifTrace("wait", key)
 			service.cond.Wait()
 		} else {
 			break
@@ -114,6 +117,7 @@ func (service *importCache) getOrAdd(key string, add func() (rel.Expr, error)) (
 
 	// Indicate that we'll add it.
 	service.cache[key] = nil
+	verifTrace("claim", key)
 
 	// Free the lock while we work.
 	service.mutex.Unlock()
@@ -130,6 +134,7 @@ func (service *importCache) getOrAdd(key string, add func() (rel.Expr, error)) (
 	} else {
 		delete(service.cache, key)
 	}
+	verifTrace("publish", key)
 	service.cond.Broadcast()
 	return val, nil
 }
